@@ -21,7 +21,7 @@ RULE = ("(role, phase, cut class, stall style) enumerated; phases: before RQ/AC,
 ASSUMPTIONS = ["all four timeouts 0.5 s; watchdog 6 s after the stall began (>= 10 x the relevant timeout plus margin)",
                "the peer never closes the TCP connection during the observation window"]
 WORKERS = {"quick": 16, "thorough": 16}
-REQUIRE = {"scenarios": 40, "acceptor_scenarios": 20, "requestor_scenarios": 15, "stall_points_reached": 40, "stream_scenarios": 10, "skewed_timeout_scenarios": 10}
+REQUIRE = {"scenarios": 40, "acceptor_scenarios": 20, "requestor_scenarios": 15, "stall_points_reached": 40, "stream_scenarios": 10, "skewed_timeout_scenarios": 10, "tls_scenarios": 2}
 VER = "1.2.840.10008.1.1"
 CT = "1.2.840.10008.5.1.4.1.1.2"
 T = 0.5
@@ -48,7 +48,9 @@ def timeouts_for(case):
         else:
             rel = {"network", "acse"}          # idle timer, then ARTIM after the A-ABORT
     else:
-        if ph in ("before-ac", "release-no-rp"):
+        if ph == "tls-handshake-silent":
+            rel = {"connection"}               # TCP connect + TLS handshake run under the connection timeout
+        elif ph in ("before-ac", "release-no-rp"):
             rel = {"acse"}
         else:
             rel = {"dimse", "acse"}            # DIMSE timeout, then ARTIM after the A-ABORT
@@ -60,7 +62,7 @@ ACC_PHASES = ["before-rq", "inside-rq", "idle", "mid-command", "between-command-
 # the peer never goes quiet: after provoking (or being sent) an A-ABORT it ignores it and keeps streaming complete PDUs
 ACC_STREAM_PHASES = ["stream-after-request-on-unaccepted-context", "stream-after-unrecognised-pdu", "stream-after-undecodable-pdu", "stream-after-release-rq",
                      "stream-while-application-aborts"]
-REQ_PHASES = ["before-ac", "inside-ac", "echo-no-response", "echo-response-inside-pdu", "find-pending-then-silence",
+REQ_PHASES = ["tls-handshake-silent", "before-ac", "inside-ac", "echo-no-response", "echo-response-inside-pdu", "find-pending-then-silence",
               "find-response-mid-dataset", "release-no-rp", "release-rp-inside-pdu", "store-no-response"]
 
 
@@ -90,9 +92,11 @@ def gen_cases(tier, seed):
                 if style == "dribble" and c == "-":
                     continue
                 cases.append({"role": "requestor", "phase": ph, "cut": c, "style": style})
+    cases.append({"role": "acceptor", "phase": "tls-server-handshake-stalled", "cut": "-", "style": "silent"})
+    cases.append({"role": "acceptor", "phase": "tls-server-handshake-stalled", "cut": "-", "style": "dribble"})
     # skewed variants of the PDU-boundary stalls: only the timeouts that govern the phase are short
     for c in list(cases):
-        if c["cut"] == "-" and c["style"] in ("silent", "stream"):
+        if c["cut"] == "-" and c["style"] in ("silent", "stream") and c["phase"] != "tls-server-handshake-stalled":
             cases.append(dict(c, skew=True))
     return cases
 
@@ -331,6 +335,9 @@ def run_requestor(case, counters):
             return
         st = Staller(q, case["style"]); stallers.append(st)
         try:
+            if ph == "tls-handshake-silent":
+                # plain TCP listener that never answers the ClientHello
+                stall_at["t"] = time.time(); time.sleep(WATCHDOG + 3); return
             rq = q.recv_pdu(3.0)
             if not rq or rq.get("type") != "RQ":
                 return
@@ -377,7 +384,14 @@ def run_requestor(case, counters):
 
     def user():
         try:
-            a = ae.associate("127.0.0.1", lst.port)
+            kw = {}
+            if ph == "tls-handshake-silent":
+                import ssl
+                cx = ssl.SSLContext(ssl.PROTOCOL_TLS_CLIENT)
+                cx.check_hostname = False
+                cx.verify_mode = ssl.CERT_NONE
+                kw["tls_args"] = (cx, None)
+            a = ae.associate("127.0.0.1", lst.port, **kw)
             res["established"] = a.is_established
             if not a.is_established:
                 return
@@ -416,7 +430,69 @@ def run_requestor(case, counters):
         harness.stop_ae(ae, 2.0)
 
 
+def run_tls_server(case, counters):
+    """TLS-enabled acceptor: a client that connects and never starts (or never finishes) the handshake must not keep the server
+    from serving others for longer than the ACSE timeout."""
+    import os
+    import socket
+    import ssl
+    import pynetdicom
+    taps.reset()
+    viol = []
+    certs = os.path.join(os.path.dirname(pynetdicom.__file__), "tests", "cert_files")
+    if not os.path.exists(os.path.join(certs, "server.crt")):
+        return [], {"setup": "no certificate files"}, "certificate files of the test suite not found"
+    ae = harness.make_ae(timeouts=(T, T, T, T), supported=[VER])
+    cx = ssl.create_default_context(ssl.Purpose.CLIENT_AUTH)
+    cx.load_cert_chain(os.path.join(certs, "server.crt"), os.path.join(certs, "server.key"))
+    server = ae.start_server(("127.0.0.1", 0), block=False, ssl_context=cx)
+    port = server.socket.getsockname()[1]
+    silent = socket.create_connection(("127.0.0.1", port))
+    if case["style"] == "dribble":
+        silent.sendall(b"\x16\x03\x01")            # the first bytes of a TLS record header, then nothing
+    t_stall = time.time()
+    counters["stall_points_reached"] = counters.get("stall_points_reached", 0) + 1
+    counters["tls_scenarios"] = counters.get("tls_scenarios", 0) + 1
+    time.sleep(0.1)
+    ccx = ssl.SSLContext(ssl.PROTOCOL_TLS_CLIENT)
+    ccx.check_hostname = False
+    ccx.verify_mode = ssl.CERT_NONE
+    obs = {"phase": case["phase"]}
+    second = None
+    try:
+        raw = socket.create_connection(("127.0.0.1", port), timeout=SOFT)
+        raw.settimeout(SOFT)
+        try:
+            second = vpeer.Peer(ccx.wrap_socket(raw))
+            ac = second.associate(ps38.make_rq(), timeout=SOFT)
+            obs["second_client"] = (ac or {}).get("type")
+        except (OSError, ssl.SSLError) as exc:
+            ac = None
+            obs["second_client"] = repr(exc)[:120]
+        obs["second_client_after_s"] = round(time.time() - t_stall, 2)
+        if not ac or ac.get("type") != "AC":
+            viol.append({"key": "server-blocked-by-stalled-tls-handshake|%s" % case["style"],
+                         "detail": "a client that connected %.1f s earlier and never completed the TLS handshake keeps the server thread in wrap_socket(): "
+                                   "a second client got %r within %.1f s (ACSE timeout %.1f s)" % (0.1, obs["second_client"], SOFT, T)})
+        elif second is not None:
+            second.release(2.0)
+    finally:
+        for s_ in (silent, second):
+            try:
+                if s_ is not None:
+                    s_.close()
+            except OSError:
+                pass
+        harness.stop_ae(ae, 2.0)
+    return viol, obs, None
+
+
 def run_case(case):
+    if case["phase"] == "tls-server-handshake-stalled":
+        counters = {"scenarios": 1, "acceptor_scenarios": 1}
+        viol, obs, inc = run_tls_server(case, counters)
+        return {"key": sha([case["role"], case["phase"], case["style"]]), "nontrivial": True, "sample": {"case": case, "observed": obs},
+                "violations": viol, "counters": counters, "inconclusive": inc}
     counters = {"scenarios": 1, case["role"] + "_scenarios": 1}
     viol, obs, inc = (run_acceptor if case["role"] == "acceptor" else run_requestor)(case, counters)
     if case.get("skew"):
